@@ -344,3 +344,22 @@ Example op_sequence_ex :
   = [ ([7; 7; 7; -1], [[66]; []]); ([1; 2; 5; -1], [[]; [2; 3]]);
       ([1; 3; 5; 1], [[71]; []]); ([1; 3; 5; 0], [[84]; [9]]) ].
 Proof. split; vm_compute; reflexivity. Qed.
+
+(* ---------- table[slice | mask | ids] (repaired F8: every table class) ---------- *)
+Theorem py_getitem_idx_refines d t idx rows :
+  WF d t -> py_getitem_idx_gen true d t idx = Ok rows ->
+  rows = rows_at (abs t) idx /\ Forall (fun i => 0 <= i < nrows t) idx.
+Proof.
+  intros W H. unfold py_getitem_idx_gen in H. rewrite andb_false_r in H.
+  destruct (extend d (init d 0) t idx) as [t' st] eqn:E.
+  destruct st as [[]| | |]; try discriminate. inversion H; subst rows; clear H.
+  destruct (init_wf d 0 (Z.le_refl 0)) as [W0 A0].
+  destruct (extend_ok _ _ _ _ _ W0 W E) as (_ & A & F). rewrite A, A0. auto.
+Qed.
+
+Example provenance_getitem_ex :
+  let t := fold_left (fun t r => match add_row d_provenances t r with Ok t' => t' | _ => t end)
+                     [([], [[114]; [116]]); ([], [[115]; [117]])] (init d_provenances 0) in
+  py_getitem_idx_gen true d_provenances t [1; 0] = Ok [([], [[115]; [117]]); ([], [[114]; [116]])].
+Proof. vm_compute. reflexivity. Qed.
+
